@@ -82,6 +82,11 @@ CHECKS = {
           "Generated programs (48 quick / 3000 thorough) with generous real-time bounds; the wait-group window is enumerated exhaustively up to the preemption bound.",
           "Bounds: term 15 s (9 s flags the internal fallback), calls on closed sockets 1 s, actors 2 s, tasks 3 s; watchdog hits are inconclusive.",
           "DESIGN.md §2 C16"),
+  "C02": ("exploration",
+          "model-based property testing (proptest): FrameBatch operation sequences against a Vec model; end-to-end scripts with several sending peers, generated read styles (recv / recv_multipart / mixed) and attach/detach events while a message is half read, judged by parsing the delivered frame stream back into whole accounting messages; oversize send_multipart (254..300 frames) must be refused or delivered whole, never panic",
+          "Generated search: 20 000 container histories and 120 end-to-end scripts per quick run (2 500 thorough) over four receiver types and three transports; contiguity, flags, no-strict-subset and completeness are decided from the payloads.",
+          "Detach events only hit peers other than the one whose message is being read; completeness only for peers that stayed connected; >255 inbound frames from a raw peer are covered by C07.",
+          "DESIGN.md §2 C02"),
 }
 
 NOT_YET = {
